@@ -93,12 +93,16 @@ def rootScope (st : St) (callerScope : List (String × V)) : Frames × St :=
                      mode := some .auto, arg := some false }
   ([f], { st with gvars := st.gvars ++ [[]] })
 
+/-- what `glom()` returns: the value (the scope is dropped) or the error -/
+def topResult {σ} (o : St × Except Err (V × σ)) : St × Except Err V :=
+  match o with
+  | (st', .ok r) => (st', .ok r.1)
+  | (st', .error e) => (st', .error e)
+
 /-- `glom(target, spec, scope=callerScope)`: value or error, and the state that survives -/
 def glomTop (p : Prims) (fuel : Nat) (spec : Spec) (target : V) (callerScope : List (String × V))
     (st : St) : St × Except Err V :=
   let (root, st0) := rootScope st callerScope
-  match interp p fuel spec target root st0 with
-  | (st', .ok r) => (st', .ok r.1)
-  | (st', .error e) => (st', .error e)
+  topResult (interp p fuel spec target root st0)
 
 end Glom.Interp
